@@ -19,7 +19,7 @@ from sim.oplog import OpLog
 from sim.shrink import list_reductions
 
 PRINTABLE = [chr(c) for c in range(0x21, 0x7f)]
-RICH = list('abcXYZ0189 $_-.,:;/|\\#') + ['\xe9', '\xff', '\x01', '\t']
+RICH = list('abcXYZ0189 $_-.,:;/|\\#') + ['\xe9', '\xff', '\x01', '\t', '\x00', '\x00']
 
 
 def rich_word(rng, delim, lo=1, hi=10):
@@ -161,6 +161,22 @@ class C14Machine(Machine):
                 return {'arm': 'walk', 'prefix': None, 'L': self.WALK_PREFIX - 1}
             p = ''.join(itertools.islice(itertools.product('/ab', repeat=self.WALK_PREFIX), index - 1, index).__next__())
             return {'arm': 'walk', 'prefix': p, 'L': L}
+        if rng.chance(0.04):
+            # sibling files: the same (large, > 4 kB) primary TEXT byte for byte, different supplemental TEXT of the
+            # same length, read one after the other in one process (instrument software exports whole plates
+            # like this)
+            spec = fcsgen.gen_spec(rng, small=True, keywords=False, version=rng.choice(['FCS3.0', 'FCS3.1']))
+            d = rng.choice(['/', '|', '\x0c', '!'])
+            spec['delim'] = d
+            spec['pads'] = []
+            spec['shuffle'] = None
+            spec['extra'] = [['K%03d' % i, rich_word(rng, d, 20, 40)] for i in range(rng.choice([20, 110, 140]))]
+            spec['stext'] = [['SAMPLE ID', 'well-A01'], ['OPERATOR', 'alice'], ['S' + rich_word(rng, d, 1, 4), 'v1']]
+            spec['stext_lead'] = True
+            spec['order'] = ['TEXT', 'DATA', 'STEXT']
+            sib = copy.deepcopy(spec)
+            sib['stext'] = [['SAMPLE ID', 'well-B07'], ['OPERATRX', 'carol'], [spec['stext'][2][0], 'v2']]
+            return {'arm': 'siblings', 'spec': spec, 'sibling': sib}
         if rng.chance(0.25):
             # file arm: delimiter must not start any keyword or value of the file
             for _ in range(50):
@@ -211,6 +227,9 @@ class C14Machine(Machine):
             return {'arm': 'direct', 'items': case['items'][:3], 'n_items': len(case['items'])}
         if case['arm'] == 'file':
             return fcsload.C01Machine().summarise({'arm': 'intact', 'spec': case['spec']})
+        if case['arm'] == 'siblings':
+            return {'arm': 'siblings', 'n_extra': len(case['spec']['extra']), 'stext': case['spec']['stext'],
+                    'sibling_stext': case['sibling']['stext']}
         return case
 
     # ------------------------------------------------------------------
@@ -262,6 +281,35 @@ class C14Machine(Machine):
                 r, g = one(it['raw'], it['delim'], it['sup'], it.get('pre', ''), it.get('post', ''),
                            it.get('pass_delim', True), it.get('faults', ()))
                 log.add('direct', it['raw'], it['delim'], it['sup'], r, g)
+        elif case['arm'] == 'siblings':
+            dk = simdisk.SimDisk('c14s')
+            try:
+                ld = fcsload.Loader(dk)
+                seq = [('a.fcs', case['spec']), ('b.fcs', case['sibling']), ('a.fcs', case['spec'])]
+                for name, sp in seq:
+                    bb, inf = fcs_ref.build(sp)
+                    dk.write(name, bb)
+                    o = ld.load(name)
+                    out['evals'] += 1
+                    log.add('sibling', name, o['kind'], sorted(o.get('text', {}).items())[-4:])
+                    if o['kind'] == 'exc':
+                        out['violations'].append(violation('C14/wellformed-refused', 'siblings/raise', '%s: %s' % (o['exc'], o['msg'])))
+                    elif o['text'] != inf['truth']['text']:
+                        diff = sorted(set(inf['truth']['text'].items()) ^ set(o['text'].items()))[:4]
+                        out['violations'].append(violation(
+                            'C14/repaired', 'siblings/text', 'file %s read after its sibling: keywords differ from what was '
+                            'written: %r' % (name, diff)))
+                    # and the primary segment alone, straight from the bytes
+                    a_, e_ = inf['seg']['TEXT']
+                    got = run_parser(F, bb[a_:e_ + 1].decode(fcs_ref.ENC), sp['delim'], False)
+                    ref = fcs_ref.tokenize(bb[a_:e_ + 1].decode(fcs_ref.ENC), sp['delim'], False)
+                    j = judge(ref, got)
+                    if j is not None:
+                        out['violations'].append(violation(j[0], 'siblings/primary-direct/' + j[1], j[2][:300]))
+                bump(out['probes'], 'sibling_files_same_primary_text')
+                out['sigs'].add('siblings|%s|%d' % (case['spec']['version'], len(case['spec']['extra']) // 50))
+            finally:
+                dk.teardown()
         else:
             spec = case['spec']
             b, info = fcs_ref.build(spec)
@@ -336,6 +384,8 @@ class C14Machine(Machine):
                     c = copy.deepcopy(it)
                     c['raw'] = raw[:i] + 'a' + raw[i + 1:]
                     yield {'arm': 'direct', 'items': [c]}
+            return
+        if case['arm'] == 'siblings':
             return
         for cand in fcsload.C01Machine().shrink_candidates({'arm': 'intact', 'spec': case['spec']}):
             yield {'arm': 'file', 'spec': cand['spec']}
